@@ -130,14 +130,6 @@ fn compile_emit(text: &str, shell: &str) -> Result<String, String> {
     }
 }
 
-fn strip_sig(s: &str) -> &str {
-    // the first line embeds `git describe` of the build
-    match s.find('\n') {
-        Some(i) => &s[i + 1..],
-        None => s,
-    }
-}
-
 fn case_item(it: &Item) -> Outcome {
     let pl = place(it.mask, it.name, it.pos, it.defs_first);
     let text = print_minimal(&pl.g);
